@@ -320,8 +320,8 @@ C20_Clause(c, aux, o) ==
     CASE c = "echoTestReqID" ->   \* TestRequest in sequence -> one Heartbeat with the same TestReqID
             (IsIn(o) /\ m.t = "1" /\ Clean(m) /\ m.app = "ok" /\ m.seq = pre.nIn /\ pre.st \in LoggedOnSt /\ m.trid # ""
                 /\ m.pd = "none" /\ pre.q = 0) =>
-                /\ Count(o.out, LAMBDA x : x.t = "0" /\ x.x = m.trid) = 1
-                /\ pre.stash = {} => Len(HBs(o)) = 1
+                /\ Count(o.out, LAMBDA x : x.t = "0" /\ x.x = m.trid) >= 1
+                /\ pre.stash = {} => (Len(HBs(o)) = 1 /\ Count(o.out, LAMBDA x : x.t = "0" /\ x.x = m.trid) = 1)
       [] c = "heartbeatOnIdle" ->
             /\ (tmo("NeedHeartbeat") /\ pre.st \in {"inSession", "resend"} /\ pre.q = 0) =>
                     (Len(w) = 1 /\ w[1].t = "0" /\ w[1].x = "" /\ post.st = pre.st)
